@@ -504,3 +504,16 @@ def run_k(check, mirror, crate, specs, par=6, rb=None):
             detail["tail"] = r["tail"][-1200:]
             check.add(oid, "inconclusive", "K", r["seconds"], detail, queries=nq)
     return results
+
+
+def dt_duration_ns(text):
+    """nanoseconds denoted by a days-and-time duration text (ISO 8601 subset of FEEL), or None"""
+    import re as _re
+    m = _re.match(r"^(-)?P(?:(\d+)D)?(?:T(?:(\d+)H)?(?:(\d+)M)?(?:(\d+)(?:\.(\d*))?S)?)?$", text.strip())
+    if not m or text.strip() in ("P", "-P", "PT", "-PT"):
+        return None
+    d, h, mi, s_, fr = (m.group(k) for k in (2, 3, 4, 5, 6))
+    ns = (int(d or 0) * 86400 + int(h or 0) * 3600 + int(mi or 0) * 60 + int(s_ or 0)) * 10 ** 9
+    if fr:
+        ns += int((fr + "000000000")[:9])
+    return -ns if m.group(1) else ns
